@@ -92,11 +92,12 @@ fn extension_group(input: Input<'_>) -> ParserResult<'_, SequenceComponent> {
             SequenceComponent::Member(SequenceOrSetMember {
                 is_recursive: false,
                 // a group may consist of `COMPONENTS OF` only: it is then named after the first reference
+                // (the path to a field of an information object is spelled with hyphens, to stay a name)
                 name: String::from(INTERNAL_EXTENSION_GROUP_NAME_PREFIX)
-                    + members
+                    + &members
                         .first()
-                        .map(|m| m.name.as_str())
-                        .or(components_of.first().map(|c| c.as_str()))
+                        .map(|m| m.name.clone())
+                        .or(components_of.first().map(|c| c.replace(".&", "-")))
                         .unwrap_or_default(),
                 tag: None,
                 ty: ASN1Type::Sequence(SequenceOrSet {
